@@ -1314,8 +1314,16 @@ JANUS_INLINE = {"gg", "reb_integrator_janus_synchronize"}
 
 
 def extract_all(repo):
-    """returns a dict with every table and every schedule; raises ExtractError when the source no longer has the
-    shape the translator understands"""
+    """returns a dict with every table and every schedule; raises ExtractError (message prefixed with the integrator family
+    in brackets) when the source no longer has the shape the translator understands"""
+    fam = ["tables"]
+    try:
+        return _extract_all(repo, fam)
+    except ExtractError as ex:
+        raise ExtractError("[%s] %s" % (fam[0], ex))
+
+
+def _extract_all(repo, fam):
     S = os.path.join(repo, "src")
     enums = parse_enums(os.path.join(S, "rebound.h"))
     saba = CFile(os.path.join(S, "integrator_saba.c"))
@@ -1338,26 +1346,32 @@ def extract_all(repo):
                                     "explicit": count_literals(init), "literals": literal_texts(init, []),
                                     "text": f.definition_text(name)}
         return v
+    fam[0] = "saba"
     for n in ("reb_saba_c", "reb_saba_d", "reb_saba_cc"):
         table(saba, n)
+    fam[0] = "eos"
     eos_tabs = sorted(n for n in eos.globals if re.match(r"(lf|pmlf|plf)\w*_[a-z]$|lf4_a$|lf4_2_a$", n))
     for n in eos_tabs:
         table(eos, n, "eos_" + n)
     D["eos_table_names"] = eos_tabs
+    fam[0] = "janus"
     jschemes = sorted(n for n, (ty, _, _) in jan.globals.items() if "reb_janus_scheme" in ty)
     for n in jschemes:
         table(jan, n, "janus_" + n)
     D["janus_scheme_names"] = jschemes
     D["janus_struct_text"] = jan.struct_text("reb_janus_scheme")
+    fam[0] = "whfast"
     wh_a = sorted((n for n in wh.globals if re.match(r"reb_whfast_corrector_a_\d+$", n)), key=lambda s: int(s.rsplit("_", 1)[1]))
     wh_b = sorted((n for n in wh.globals if re.match(r"reb_whfast_corrector_b_\d+$", n)), key=lambda s: int(s.rsplit("_", 1)[1]))
     for n in wh_a + wh_b + ["reb_whfast_corrector2_b"]:
         table(wh, n)
     D["whfast_a_names"], D["whfast_b_names"] = wh_a, wh_b
+    fam[0] = "ias15"
     for n in ("h", "rr", "c", "d", "w"):
         table(ias, n, "ias15_" + n)
 
     # ---- SABA
+    fam[0] = "saba"
     D["enums"]["saba"] = sorted(((k, v) for k, v in enums.items() if k.startswith("REB_SABA_")), key=lambda kv: kv[1])
     base = {"r.N": 2, "r.N_var": 0, "r.N_active": -1, "r.testparticle_type": 0, "r.N_var_config": 0, "r.t": Fraction(0),
             "r.ri_whfast.coordinates": 0, "r.ri_whfast.recalculate_coordinates_this_timestep": 0,
@@ -1377,6 +1391,7 @@ def extract_all(repo):
         D["saba"].append({"name": name, "value": val, "stages": stages, "step": one, "two_unsync": two})
 
     # ---- WHFast
+    fam[0] = "whfast"
     D["enums"]["whfast_kernel"] = sorted(((k, v) for k, v in enums.items() if k.startswith("REB_WHFAST_KERNEL_")), key=lambda kv: kv[1])
     D["enums"]["whfast_coordinates"] = sorted(((k, v) for k, v in enums.items() if k.startswith("REB_WHFAST_COORDINATES_")), key=lambda kv: kv[1])
     corr_orders = [0]
@@ -1432,6 +1447,7 @@ def extract_all(repo):
             D["whfast_correctors"].append({"order": corr, "inv": inv, "ops": abstract(ops, "whfast")})
 
     # ---- EOS
+    fam[0] = "eos"
     D["enums"]["eos"] = sorted(((k, v) for k, v in enums.items() if k.startswith("REB_EOS_")), key=lambda kv: kv[1])
     ebase = {"r.t": Fraction(0), "r.calculate_megno": 0, "r.ri_eos.safe_mode": 1, "r.ri_eos.is_synchronized": 1, "r.ri_eos.n": 1,
              "r.ri_eos.phi0": 0, "r.ri_eos.phi1": 0, "r.N": 2, "r.gravity": enums["REB_GRAVITY_BASIC"]}
@@ -1449,6 +1465,7 @@ def extract_all(repo):
         D["eos"].append({"name": name, "value": val, "outer": outer, "outer_two_unsync": outer2, "inner": inner})
 
     # ---- JANUS
+    fam[0] = "janus"
     D["janus"] = []
     jbase = {"r.N": 2, "r.t": Fraction(0), "r.ri_janus.N_allocated": 2, "r.ri_janus.recalculate_integer_coordinates_this_timestep": 0,
              "r.ri_janus.scale_pos": Fraction(1, 10 ** 16), "r.ri_janus.scale_vel": Fraction(1, 10 ** 16), "r.ri_janus.p_int": Path("pint"),
@@ -1463,6 +1480,7 @@ def extract_all(repo):
         D["janus"].append({"order": order, "stages": stages, "scheme": n, "step": abstract(ops, "janus")})
 
     # ---- LEAPFROG
+    fam[0] = "leapfrog"
     lbase = {"r.N": 1, "r.t": Fraction(0), "r.particles": Path("r.particles")}
     ops = run_config([lf], enums, ["reb_integrator_leapfrog_part1", "FORCE", "reb_integrator_leapfrog_part2"], lbase, set())
     D["leapfrog"] = abstract_leapfrog(ops)
